@@ -19,12 +19,14 @@ try:
         if r.returncode != 0:
             print(name, "PATCH DOES NOT APPLY", r.stderr[:200]); continue
         env = dict(os.environ, VPV_REPO=WT)
-        p = subprocess.run(["/verif/bin/vcheck", prop] + (["--dev"] if os.environ.get("VPV_DEV") else []), capture_output=True, text=True, cwd="/verif", env=env)
+        p = subprocess.run(["/verif/bin/vcheck", prop] + (["--dev"] if os.environ.get("VPV_DEV") else []) + (["--only", os.environ["VPV_ONLY"]] if os.environ.get("VPV_ONLY") else []), capture_output=True, text=True, cwd="/verif", env=env)
         viol = re.findall(r"^VIOLATION .*obligation=(.*)$", p.stdout, re.M)
         outcome = "detected" if p.returncode == 1 and viol else ("undecided(exit 2)" if p.returncode == 2 else "missed")
         meta = json.load(open(os.path.join(d, "meta.json")))
         meta["check_outcome"] = dict(outcome=outcome, exit_code=p.returncode, violated_obligations=viol[:6], n_violations=len(viol),
                                      summary=(p.stdout.strip().splitlines() or [""])[-1][:300], stderr_tail=p.stderr.strip()[-300:])
+        if os.environ.get("VPV_ONLY"):
+            meta["check_outcome"]["restricted_to_cells"] = os.environ["VPV_ONLY"]
         meta["detected_by"] = (f"bin/vcheck {prop}: " + "; ".join(viol[:3])) if outcome == "detected" else None
         json.dump(meta, open(os.path.join(d, "meta.json"), "w"), indent=1)
         print(name, outcome, viol[:2], flush=True)
